@@ -8,7 +8,7 @@ Property theorems only.  Model: `Session.lean`; spec: `Lemmas/SessionSpec.lean`;
 `Lemmas/SessionOps.lean` (one call, one view), `Lemmas/SessionNormal.lean` (JSON-normality is invariant),
 `Lemmas/SessionHist.lean` (loading, one request, refinement of histories), `Lemmas/SessionPersist.lean`
 (persistence over histories), `Lemmas/SessionSigned.lean` (WebOb's `SignedSerializer` over abstract parts),
-`Lemmas/SessionTable.lean` + `Gen/C10Wrap.lean` (class-body table regenerated from the source).
+`Lemmas/SessionTable.lean` + `Gen/C10Wrap.lean` (behavioural tables obtained by running the code under test).
 
 All statements quantify over every codec satisfying the named hypotheses, every factory configuration, every clock,
 every list of operations with arbitrary clock advances, and histories of any length.  Time is in quarter seconds.
@@ -300,30 +300,34 @@ theorem salt_secret_boundary_collision :
     saltedKey [112, 121] [46, 115] = saltedKey [112, 121, 46] [115] ∧
     (([112, 121], [46, 115]) : List UInt8 × List UInt8) ≠ ([112, 121, 46], [115]) := by decide
 
-/-! ## 5. The class body of `CookieSession`, regenerated from the source on every run -/
+/-! ## 5. Behavioural tables of `CookieSession`, re-derived on every run by running the code under test -/
 
-/-- every operation of the model goes through the attribute the source defines with the wrapper the model applies -/
-theorem wrap_table_matches_model (op : Op) :
-    Gen.wrapTable.lookup (methodOf op) = some (sourceWrapOf op) := by
+/-- the class of every probed call (31 probes: every method the statement reaches plus the corner calls — `get_csrf_token`
+without a token, `pop` whose default IS the stored value, `pop`/`pop_flash`/`del` of an absent key, `setdefault` of a present
+key, `flash` of a duplicate) observed on the real code is the class the MODEL computes for the same call on the same state at
+the same three clocks; and no probe raised. -/
+theorem behaviour_table_matches_model : Gen.probeOk = true ∧ Gen.behaviour = modelBehaviour := by decide
+
+/-- every operation of the model has, on the real code, the class the spec gives it -/
+theorem wrap_table_matches_model (op : Op) : Gen.behaviour.lookup (methodOf op) = some (classOf op) := by
   cases op <;> rfl
 
-/-- every mutating dict method is wrapped by `manage_changed`, every reading one by `manage_accessed`, and nothing
-in the class body has a shape the translator did not understand -/
+/-- every mutating dict method marks the session changed, every reading one marks it accessed, and no probe is unknown -/
 theorem mutators_marked_changed :
-    (∀ m ∈ dictMutators, Gen.wrapTable.lookup m = some "manage_changed") ∧
-    (∀ m ∈ dictReaders, Gen.wrapTable.lookup m = some "manage_accessed") ∧
-    Gen.wrapTable.all (fun p => p.2 != "unknown") = true := by decide
+    (∀ m ∈ dictMutators, Gen.behaviour.lookup m = some "changed") ∧
+    (∀ m ∈ dictReaders, Gen.behaviour.lookup m = some "accessed") ∧
+    Gen.behaviour.all (fun p => p.2 != "unknown") = true := by decide
 
-/-- the composite methods reach exactly the wrapped methods the model composes them from -/
-theorem inner_calls_as_modelled : Gen.innerCalls = modelInnerCalls := by decide
-
-/-- the three threshold tests are strict `>`, the limit is 4064, the wrappers truncate the clock with `int()` and
-have the statement order the model follows, `changed` registers its callback under `if not self._dirty`, and
-`_set_cookie` opens with the `set_on_exception` test -/
+/-- the thresholds observed on the real code are the model's: expiry (T ∈ {0,1,10,None}, clocks around `renewed + T`),
+reissue (R ∈ {0,1,10}, clocks around `renewed + R`, whole seconds), the size limit (lengths around 4064), the
+`set_on_exception` square, one callback after eight calls, and the payload handed to the serialiser (stamp = whole seconds of
+the last wrapped call, an `int`; creation time; the data). -/
 theorem thresholds_as_modelled :
-    Gen.sizeLimit = cookieLimit ∧ Gen.sizeCmp = "Gt" ∧ Gen.timeoutCmp = "Gt" ∧ Gen.reissueCmp = "Gt" ∧
-    Gen.accessedShape = true ∧ Gen.changedShape = true ∧ Gen.changedGuard = true ∧ Gen.onExceptionGuard = true := by
-  decide
+    Gen.timeoutProbe.length = 20 ∧ Gen.timeoutProbe.all (fun p => modelTimeout p.1 p.2.1 == some p.2.2) = true ∧
+    Gen.reissueProbe.length = 22 ∧ Gen.reissueProbe.all (fun p => modelReissue p.1 p.2.1 == p.2.2) = true ∧
+    Gen.sizeProbe.length = 18 ∧ Gen.sizeProbe.all (fun p => modelSize p.1 == p.2) = true ∧
+    Gen.excProbe.length = 4 ∧ Gen.excProbe.all (fun p => modelExc p.1 p.2.1 == p.2.2) = true ∧
+    Gen.callbacksAfterMany = modelCallbacksAfterMany ∧ Gen.payloadProbe = modelPayload := by decide
 
 /-! ## 6. Non-vacuity -/
 
